@@ -55,12 +55,14 @@ example : run pinned ([37, 112, 37].length + 100) [37, 112, 37] {} .emit = run p
 
 /-! ### refinement of the terminfo(5) reference -/
 
-/-- Straight-line special case, kept because it holds for BOTH variants without any side condition: for every
+/-- **tparm_straight_line** (formerly `tparm_refines_spec_partial`; superseded as the headline by `tparm_refines_spec`, kept
+under a non-`_partial` name because it is not a corollary of it: it holds for BOTH machine variants and without the
+`specified` side condition).  Straight-line special case: for every
 sequence of valid tokens other than `%{n}`, printf formats, `%A`/`%O` and the conditional markers, any parameters and
 any static variables, the pinned and the repaired machine compute exactly what the terminfo(5) reference computes.
 (The full statements are `tparm_refines_spec` for the repaired and `tparm_pinned_refines_spec` for the pinned
 machine below; the full statement is false for the pinned machine, `nested_cond_counterexample`.) -/
-theorem tparm_refines_spec_partial (v : Variant) (ts : List Tok)
+theorem tparm_straight_line (v : Variant) (ts : List Tok)
     (h : ∀ t ∈ ts, simpleTok t = true ∧ t.valid = true) (params : List Value) (sv : Vars) :
     tparmV v (ofToks ts).render params sv = Spec.Terminfo5.tparm (ofToks ts) params sv := by
   simp only [tparmV, Spec.Terminfo5.tparm, run_straight v ts h _ _ (Nat.le_refl _)]
@@ -174,7 +176,7 @@ def hardCoded : List (Bytes × Nat) :=
    ([27,93,49,50,59,35,37,112,49,37,48,50,120,37,112,50,37,48,50,120,37,112,51,37,48,50,120,7], 3)] -- ESC]12;#%p1%02x%p2%02x%p3%02x BEL
 
 /-- well-formed, uses only the parameters tcell supplies, and lies in the class for which the pinned code is proved
-to refine the reference (`tparm_refines_spec_partial`) -/
+to refine the reference (`tparm_straight_line`) -/
 def okFor (s : Bytes) (arity : Nat) : Bool :=
   match parse s with
   | some a => a.maxParam ≤ arity && a.depth ≤ 1 && a.all Tok.pinnedOk
